@@ -296,7 +296,10 @@ def benignFailure (s : SyncCase) (r : Rec) : Bool :=
   | "get", "NotFound" =>
       -- a vanished child during adopt/release, or the parent itself during the status write
       !(s.isParentTarget r) || s.calls.any (fun h => h.isHook && h.idx < r.idx)
-  | "get", "Gone" => r.isRevision
+  -- releasing a child or ControllerRevision that is "already gone" (410) is tolerated like 404: the object was
+  -- observed as ours, so the read-modify-write is a release
+  | "get", "Gone" | "update", "Gone" =>
+      !(s.isParentTarget r) && (cachedDependent s r).map controllerUID == some s.parentUID
   | _, _ => false
 
 def oracleC12 (s : SyncCase) : Option String :=
